@@ -250,21 +250,44 @@ def run(ctx):
     # ---------------------------------------------------------------- R10
     r = ctx.rule("C06-R10", "GUARD", "every alias of a command option identifies it: the loops that index long and short aliases run for every command option, not only "
                  "for those that (also) have some other name", reference=4)
-    for cls, mname in ((fmt, "__init__"), (bld, "add_command_option")):
-        m = cls.methods.get(mname)
-        if m is None:
-            continue
-        cfg = ctx.cfg(m)
-        for loop in [n for n in walk_no_nested(m.node) if isinstance(n, ast.For) and isinstance(n.iter, ast.Attribute) and n.iter.attr in ("long_aliases", "short_aliases") and isinstance(n.iter.value, ast.Name)]:
-            elem = loop.iter.value.id
-            ln = cfg.node_of(loop)
-            extra = [e for e in cfg.nodes if e.kind in ("T", "F") and e.ast is not None and cfg.dominates(e.id, ln.id) and any(isinstance(x, ast.Attribute) and isinstance(x.value, ast.Name) and x.value.id == elem for x in walk_no_nested(e.ast))
-                     and not (cfg.inevitably_raises((cfg.false_of(e.cond) if e.kind == "T" else cfg.true_of(e.cond)).id) if (cfg.false_of(e.cond) if e.kind == "T" else cfg.true_of(e.cond)) is not None else False)]
-            if extra:
-                r.fail(m, loop, "loop over %s under `%s`" % (norm(loop.iter), norm(extra[0].ast)), "%s.%s indexes the %s only when %s%s: a command option without that other name keeps aliases the format "
-                       "does not know, so another option can take the same alias" % (cls.name, mname, loop.iter.attr.replace("_", " "), "" if extra[0].kind == "T" else "not ", norm(extra[0].ast)))
-            else:
-                r.ok("%s.%s: every %s indexed" % (cls.name, mname, loop.iter.attr))
+    def _name_guards(cfg, at, elem):
+        """conditions on another attribute of `elem` that dominate node `at` (raising arms excluded)"""
+        out = []
+        for e in cfg.nodes:
+            if e.kind not in ("T", "F") or e.ast is None or not cfg.dominates(e.id, at.id):
+                continue
+            if not any(isinstance(x, ast.Attribute) and isinstance(x.value, ast.Name) and x.value.id == elem for x in walk_no_nested(e.ast)):
+                continue
+            other = cfg.false_of(e.cond) if e.kind == "T" else cfg.true_of(e.cond)
+            if other is not None and cfg.inevitably_raises(other.id):
+                continue
+            out.append(e)
+        return out
+
+    for cls in (fmt, bld):
+        for mname, m in sorted(cls.methods.items()):
+            loops = [n for n in walk_no_nested(m.node) if isinstance(n, ast.For) and isinstance(n.iter, ast.Attribute) and n.iter.attr in ("long_aliases", "short_aliases") and isinstance(n.iter.value, ast.Name)
+                     and any(isinstance(x, ast.Assign) and isinstance(x.targets[0], ast.Subscript) and is_self_attr(x.targets[0].value) for x in ast.walk(n))]
+            if not loops:
+                continue
+            cfg = ctx.cfg(m)
+            for loop in loops:
+                elem = loop.iter.value.id
+                extra = [(m, e) for e in _name_guards(cfg, cfg.node_of(loop), elem)]
+                if not extra and elem in m.params and mname.startswith("_") and not mname.startswith("__"):
+                    # the loops live in a private helper: the gate may sit at its call sites
+                    idx = [a for a in m.params if a != "self"].index(elem)
+                    for o in cls.methods.values():
+                        for c in q.method_calls(o, mname, recv=lambda e_: isinstance(e_, ast.Name) and e_.id == "self"):
+                            if idx < len(c.args) and isinstance(c.args[idx], ast.Name):
+                                ocfg = ctx.cfg(o)
+                                extra += [(o, e) for n_ in ocfg.nodes_of(c) for e in _name_guards(ocfg, n_, c.args[idx].id)]
+                if extra:
+                    o, e = extra[0]
+                    r.fail(m, loop, "loop over %s under `%s`" % (norm(loop.iter), norm(e.ast)), "%s.%s indexes the %s only when %s%s: a command option without that other name keeps aliases the format "
+                           "does not know, so another option can take the same alias" % (cls.name, mname, loop.iter.attr.replace("_", " "), "" if e.kind == "T" else "not ", norm(e.ast)))
+                else:
+                    r.ok("%s.%s: every %s indexed" % (cls.name, mname, loop.iter.attr))
 
     # ---------------------------------------------------------------- R4
     r = ctx.rule("C06-R4", "SIBLING", "has_X(k) is true exactly when get_X(k) finds k: both consult the same indices", reference=6)
